@@ -16,7 +16,7 @@ open VaxisModel.Model.SurfLang VaxisModel.Model.Window VaxisModel.Model.Surface 
 open VaxisModel.Gen VaxisModel.Lemmas.SurfExec
 
 attribute [local simp] run exec evalE mkEnv Env.get Env.set applyFn getFld fldInt fldU16 Except.map assignTo setField evalSel
-  bindLoopVar binop arithU arithI isLit leave evalCon callStmt callHead asU16 zeroOf u16OfLit
+  bindLoopVar binop arithU arithI isLit leave evalCon callStmt callHead asU16 zeroOf u16OfLit rangeItems bindIt
 
 /-- **NewSurface**: `Surface{Size{width,height}, Widget, Buffer: make([]Cell, int(height)*int(width))}` is the model's
 `newSurface` with the length computed in `int` — W·H cells for every W, H, also beyond 65 535. -/
@@ -99,5 +99,128 @@ theorem centerDraw_body_eq_model (R : Ro) (tm : Bool → Nat → TextMode) (rm :
   · simp [h1]
   · simp only [h1]
     cases drawWith exactA tm rm child { minW := 0, minH := 0, maxW := c.maxW, maxH := c.maxH } <;> simp
+
+/-! ### findContainerSize (Text and RichText, soft and hard wrap)
+
+`R.soft` / `R.hard` are the lines the real scanners yield (parameters, C16); `R.wrapW` the width the soft scanner was
+built for — the body must pass `ctx.Max.Width`, or the interpreter is stuck.  The result is the model's
+`findContainerSize` with the `>=` height guard: the loop with its early `return size`, `size.Height += 1`, the uint16
+line width, the maximum and the clamp to `Max.Width`, executed statement by statement. -/
+
+theorem textFindContainerSize_soft_body_eq_model (R : Ro) (c : Ctx) (scr : Screen)
+    (hs : R.fields "Softwrap" = some (.bool true)) (hc : R.fields "Content" = some .text) (hw : R.wrapW = c.maxW) :
+    (run R SurfaceBodies.textFindContainerSize SurfaceBodies.textFindContainerSizeParams [.wid 0, .ctx c] scr).map (·.1)
+      = .ok (.size (findContainerSize true c R.soft).1 (findContainerSize true c R.soft).2) := by
+  simp [SurfaceBodies.textFindContainerSize, SurfaceBodies.textFindContainerSizeParams, hs, hc, hw]
+  rw [show scanStates true R.soft = (scanPairs R.soft).map (fun p => Val.scanner true p.2 p.1) from rfl]
+  rw [loopS_foldS R _ 4 (.scan "v2")
+    (fun (a : Val × UInt16 × UInt16) => { ρ := [("r", .wid 0), ("v0", .ctx c), ("v1", .size a.2.1 a.2.2), ("v2", a.1)], scr := scr })
+    (fun p => Val.scanner true p.2 p.1)
+    (fun a p => liftStep (fun x => (Val.scanner true p.2 p.1, x)) (sizeStep c.maxW c.maxH a.2 p.1))
+    ?_ (scanPairs R.soft) 0 (Val.scanner true R.soft [], 0, 0)]
+  · obtain ⟨sc', h | h⟩ := foldS_sizeScan true c.maxW c.maxH R.soft (Val.scanner true R.soft []) 0 0
+    · rw [h]; simp [Step.toRes, findContainerSize]
+    · rw [h]; simp [Step.toRes, findContainerSize]
+  · intro a b i
+    obtain ⟨sc, w, h⟩ := a
+    obtain ⟨line, rest⟩ := b
+    by_cases hg : c.maxH ≤ h
+    · simp [sizeStep, hg, Step.toRes, liftStep]
+    · simp [sizeStep, hg, Step.toRes, liftStep]
+      rw [loopS_foldS R _ 6 (.range "_" "v5")
+        (fun (acc : UInt16) => { ρ := [("r", Val.wid 0), ("v0", Val.ctx c), ("v1", Val.size w (h + 1)), ("v2", Val.scanner true rest line),
+                ("v3", Val.cells line), ("v4", Val.u16 acc)], scr := scr })
+        Val.cell (fun acc ch => Step.next (acc + u16 ch.w)) ?_ line 0 0, foldS_width]
+      · by_cases h1 : w < lineWidth line
+        · by_cases h2 : c.maxW < lineWidth line <;> simp [Step.toRes, h1, h2]
+        · by_cases h2 : c.maxW < w <;> simp [Step.toRes, h1, h2]
+      · intro a ch i
+        simp [Step.toRes, u16]
+
+theorem textFindContainerSize_hard_body_eq_model (R : Ro) (c : Ctx) (scr : Screen)
+    (hs : R.fields "Softwrap" = some (.bool false)) (hc : R.fields "Content" = some .text) :
+    (run R SurfaceBodies.textFindContainerSize SurfaceBodies.textFindContainerSizeParams [.wid 0, .ctx c] scr).map (·.1)
+      = .ok (.size (findContainerSize true c R.hard).1 (findContainerSize true c R.hard).2) := by
+  simp [SurfaceBodies.textFindContainerSize, SurfaceBodies.textFindContainerSizeParams, hs, hc]
+  rw [loopS_foldS R _ 3 (.range "_" "v6")
+    (fun (a : UInt16 × UInt16) => { ρ := [("r", .wid 0), ("v0", .ctx c), ("v1", .size a.1 a.2)], scr := scr })
+    Val.strOf (sizeStep c.maxW c.maxH) ?_ R.hard 0 (0, 0)]
+  · rcases foldS_sizeStep c.maxW c.maxH R.hard 0 0 with h | h
+    · rw [h]; simp [Step.toRes, findContainerSize]
+    · rw [h]; simp [Step.toRes, findContainerSize]
+  · intro a line i
+    obtain ⟨w, h⟩ := a
+    by_cases hg : c.maxH ≤ h
+    · simp [sizeStep, hg, Step.toRes]
+    · simp [sizeStep, hg, Step.toRes]
+      rw [loopS_foldS R _ 6 (.range "_" "v9")
+        (fun (acc : UInt16) => { ρ := [("r", Val.wid 0), ("v0", Val.ctx c), ("v1", Val.size w (h + 1)), ("v6", Val.strOf line),
+                ("v7", Val.cells line), ("v8", Val.u16 acc)], scr := scr })
+        Val.cell (fun acc ch => Step.next (acc + u16 ch.w)) ?_ line 0 0, foldS_width]
+      · by_cases h1 : w < lineWidth line
+        · by_cases h2 : c.maxW < lineWidth line <;> simp [Step.toRes, h1, h2]
+        · by_cases h2 : c.maxW < w <;> simp [Step.toRes, h1, h2]
+      · intro a ch i
+        simp [Step.toRes, u16]
+
+theorem richFindContainerSize_soft_body_eq_model (R : Ro) (c : Ctx) (cells : List Cell) (scr : Screen)
+    (hs : R.fields "Softwrap" = some (.bool true)) (hw : R.wrapW = c.maxW) :
+    (run R SurfaceBodies.richFindContainerSize SurfaceBodies.richFindContainerSizeParams [.wid 0, .cells cells, .ctx c] scr).map (·.1)
+      = .ok (.size (findContainerSize true c R.soft).1 (findContainerSize true c R.soft).2) := by
+  simp [SurfaceBodies.richFindContainerSize, SurfaceBodies.richFindContainerSizeParams, hs, hw]
+  rw [show scanStates false R.soft = (scanPairs R.soft).map (fun p => Val.scanner false p.2 p.1) from rfl]
+  rw [loopS_foldS R _ 5 (.scan "v3")
+    (fun (a : Val × UInt16 × UInt16) => { ρ := [("r", .wid 0), ("v0", .cells cells), ("v1", .ctx c), ("v2", .size a.2.1 a.2.2), ("v3", a.1)], scr := scr })
+    (fun p => Val.scanner false p.2 p.1)
+    (fun a p => liftStep (fun x => (Val.scanner false p.2 p.1, x)) (sizeStep c.maxW c.maxH a.2 p.1))
+    ?_ (scanPairs R.soft) 0 (Val.scanner false R.soft [], 0, 0)]
+  · obtain ⟨sc', h | h⟩ := foldS_sizeScan false c.maxW c.maxH R.soft (Val.scanner false R.soft []) 0 0
+    · rw [h]; simp [Step.toRes, findContainerSize]
+    · rw [h]; simp [Step.toRes, findContainerSize]
+  · intro a b i
+    obtain ⟨sc, w, h⟩ := a
+    obtain ⟨line, rest⟩ := b
+    by_cases hg : c.maxH ≤ h
+    · simp [sizeStep, hg, Step.toRes, liftStep]
+    · simp [sizeStep, hg, Step.toRes, liftStep]
+      rw [loopS_foldS R _ 7 (.range "_" "v6")
+        (fun (acc : UInt16) => { ρ := [("r", Val.wid 0), ("v0", .cells cells), ("v1", Val.ctx c), ("v2", Val.size w (h + 1)), ("v3", Val.scanner false rest line),
+                ("v4", Val.cells line), ("v5", Val.u16 acc)], scr := scr })
+        Val.cell (fun acc ch => Step.next (acc + u16 ch.w)) ?_ line 0 0, foldS_width]
+      · by_cases h1 : w < lineWidth line
+        · by_cases h2 : c.maxW < lineWidth line <;> simp [Step.toRes, h1, h2]
+        · by_cases h2 : c.maxW < w <;> simp [Step.toRes, h1, h2]
+      · intro a ch i
+        simp [Step.toRes, u16]
+
+theorem richFindContainerSize_hard_body_eq_model (R : Ro) (c : Ctx) (cells : List Cell) (scr : Screen)
+    (hs : R.fields "Softwrap" = some (.bool false)) :
+    (run R SurfaceBodies.richFindContainerSize SurfaceBodies.richFindContainerSizeParams [.wid 0, .cells cells, .ctx c] scr).map (·.1)
+      = .ok (.size (findContainerSize true c R.hard).1 (findContainerSize true c R.hard).2) := by
+  simp [SurfaceBodies.richFindContainerSize, SurfaceBodies.richFindContainerSizeParams, hs]
+  rw [show scanStates false R.hard = (scanPairs R.hard).map (fun p => Val.scanner false p.2 p.1) from rfl]
+  rw [loopS_foldS R _ 5 (.scan "v7")
+    (fun (a : Val × UInt16 × UInt16) => { ρ := [("r", .wid 0), ("v0", .cells cells), ("v1", .ctx c), ("v2", .size a.2.1 a.2.2), ("v7", a.1)], scr := scr })
+    (fun p => Val.scanner false p.2 p.1)
+    (fun a p => liftStep (fun x => (Val.scanner false p.2 p.1, x)) (sizeStep c.maxW c.maxH a.2 p.1))
+    ?_ (scanPairs R.hard) 0 (Val.scanner false R.hard [], 0, 0)]
+  · obtain ⟨sc', h | h⟩ := foldS_sizeScan false c.maxW c.maxH R.hard (Val.scanner false R.hard []) 0 0
+    · rw [h]; simp [Step.toRes, findContainerSize]
+    · rw [h]; simp [Step.toRes, findContainerSize]
+  · intro a b i
+    obtain ⟨sc, w, h⟩ := a
+    obtain ⟨line, rest⟩ := b
+    by_cases hg : c.maxH ≤ h
+    · simp [sizeStep, hg, Step.toRes, liftStep]
+    · simp [sizeStep, hg, Step.toRes, liftStep]
+      rw [loopS_foldS R _ 7 (.range "_" "v10")
+        (fun (acc : UInt16) => { ρ := [("r", Val.wid 0), ("v0", .cells cells), ("v1", Val.ctx c), ("v2", Val.size w (h + 1)), ("v7", Val.scanner false rest line),
+                ("v8", Val.cells line), ("v9", Val.u16 acc)], scr := scr })
+        Val.cell (fun acc ch => Step.next (acc + u16 ch.w)) ?_ line 0 0, foldS_width]
+      · by_cases h1 : w < lineWidth line
+        · by_cases h2 : c.maxW < lineWidth line <;> simp [Step.toRes, h1, h2]
+        · by_cases h2 : c.maxW < w <;> simp [Step.toRes, h1, h2]
+      · intro a ch i
+        simp [Step.toRes, u16]
 
 end VaxisModel.Props.C14Body
